@@ -203,7 +203,12 @@ def resolve_unwindset(ob, src):
     pairs = []
     for m in LOOP_RE.finditer(res["out"] or ""):
         lid, f, line, func = m.group(1), m.group(2), int(m.group(3)), m.group(4)
-        for fsub, rx, bound in rules:
+        for rule in rules:
+            fsub, rx, bound = rule[0], rule[1], rule[2]
+            # optional 4th element: the loop's index suffix in its function (CBMC reports the same source line for a
+            # `for` loop and a `while let` nested directly inside it)
+            if len(rule) > 3 and not lid.endswith(".%d" % rule[3]):
+                continue
             if fsub in func or fsub in lid:
                 path = f if os.path.isabs(f) else os.path.join(src, f)
                 try:
@@ -247,8 +252,13 @@ def make_replay(pid, ob, src, hdir, first_out, replay_dir):
     """Run concrete playback for the failed obligation; write the replay file; return (path, reproduced)."""
     os.makedirs(replay_dir, exist_ok=True)
     path = os.path.join(replay_dir, "%s.replay" % ob["name"])
-    res = run_limited(kani_cmd(ob, ["-Z", "concrete-playback", "--concrete-playback=print"]), src,
-                      ob.get("timeout", 900) * 3 + 600, 30 * 2**30)
+    if os.environ.get("VERIF_NO_REPLAY"):
+        # contract-validation runs (driver/run_mutants.sh) only need the verdict; the replay file then carries the
+        # verifier output only and the VIOLATION line says no-failing-input-found
+        res = {"out": "", "killed": "skipped (VERIF_NO_REPLAY)"}
+    else:
+        res = run_limited(kani_cmd(ob, ["-Z", "concrete-playback", "--concrete-playback=print"]), src,
+                          ob.get("timeout", 900) * 3 + 600, 30 * 2**30)
     tests = []
     for blk in PLAYBACK_RE.findall(res["out"] or ""):
         if "concrete_playback_run" in blk and "Check for `cover`" not in blk:
